@@ -86,3 +86,42 @@ theorem chef_split (names kept new : List String) :
   simp [chef]
 
 end Names
+
+namespace Names
+
+/-- the positions reported for a selection point at those very names: position `k` of the result is
+    an index of `names` holding the `k`-th selected name (for selections of existing names) -/
+theorem indices_spec (names sel : List String) (h : ∀ x ∈ sel, x ∈ names) :
+    (indices names sel).length = sel.length ∧
+      ∀ (k i : Nat), (indices names sel)[k]? = some i → ∃ x, sel[k]? = some x ∧ names[i]? = some x := by
+  induction sel with
+  | nil => exact ⟨rfl, fun k i h => by simp [indices] at h⟩
+  | cons y ys ih =>
+    have hy : y ∈ names := h y (by simp)
+    obtain ⟨j, hj⟩ : ∃ j, names.idxOf? y = some j := by
+      cases hfi : names.idxOf? y with
+      | some j => exact ⟨j, rfl⟩
+      | none =>
+        exfalso
+        have := List.idxOf?_eq_none_iff.mp hfi
+        exact this hy
+    obtain ⟨ihl, ihs⟩ := ih (fun x hx => h x (by simp [hx]))
+    have hcons : indices names (y :: ys) = j :: indices names ys := by
+      simp [indices, List.filterMap_cons, hj]
+    refine ⟨by rw [hcons]; simp [ihl], ?_⟩
+    intro k i hk
+    rw [hcons] at hk
+    cases k with
+    | zero =>
+      simp at hk
+      subst hk
+      refine ⟨y, by simp, ?_⟩
+      have := List.idxOf?_eq_some_iff.mp hj
+      obtain ⟨hlt, hget, _⟩ := this
+      simp [List.getElem?_eq_getElem hlt, hget]
+    | succ k =>
+      simp at hk
+      obtain ⟨x, hx1, hx2⟩ := ihs k i hk
+      exact ⟨x, by simpa using hx1, hx2⟩
+
+end Names
